@@ -83,6 +83,16 @@ def run(ctx):
         for idx in {0, tot - 1, tot - 2, rnd.randrange(tot), comb(a, k), comb(a, k) - 1}:
             if 0 <= idx < tot:
                 traces.append(_observe(idx, n, k))
+    # beyond 32 bits (C(n,3) up to 3.6e10): the index travels as two 16-bit-base limbs and TraceUnrank recomputes the rank in limb arithmetic
+    for _ in range(60 if ctx.quick else 600):
+        n = rnd.randint(2344, 6000)
+        tot = comb(n, 3)
+        a = rnd.randint(3, n)
+        for idx in {0, tot - 1, tot - 2, rnd.randrange(tot), comb(a, 3), comb(a, 3) - 1, rnd.randrange(2 ** 31, tot)}:
+            if 0 <= idx < tot:
+                t = _observe(idx, n, 3)
+                t.update({"kind": "bigpoint", "idx": 0, "idx_hi": idx // 65536, "idx_lo": idx % 65536})
+                traces.append(t)
     # the DBAL call site: which (index, triple) pairs one scoring call uses
     for n in range(3, 10 if ctx.quick else 14):
         for budget in sorted({1, comb(n, 3) // 4, comb(n, 3) // 3, comb(n, 3) - 1, comb(n, 3), comb(n, 3) + 5, 5000}):
@@ -92,8 +102,8 @@ def run(ctx):
     for n, budget in [(45, 5000), (60, 5000), (30, 800)] + ([] if ctx.quick else [(80, 5000), (120, 3000), (200, 5000)]):
         traces.append(_observe_dbal(n, budget, rnd.randrange(1 << 30)))
     _validate(ctx, tlc, traces)
-    ctx.assumptions += ["TLC integers are 32 bit: the register machine is explored for k=3 up to n=1500, rank/successor "
-                        "relations up to n=2343 (C(n,3) < 2^31); larger n is not covered"]
+    ctx.assumptions += ["TLC integers are 32 bit: the register machine is explored for k=3 up to n=1500; rank / successor relations with plain "
+                        "integers up to n=2343 (C(n,3) < 2^31) and with two-limb arithmetic up to n=6000 (C(n,3) < 3.6e10)"]
 
 
 def _observe(idx, n, k):
